@@ -55,6 +55,8 @@ def _plan(draw, max_items):
             it["p"] = draw(st.sampled_from([None, 7, "z"]))     # collides with a left payload name
         right.append(it)
     plan = {"op": op, "by": by, "left": left, "right": right}
+    if op != "aggregate" and nl and draw(st.integers(0, 4)) == 0:
+        plan["alias"] = draw(st.integers(1, min(2, nl)))     # the first items occur a second time at the end (same dict objects)
     if op == "aggregate" and nl and draw(st.booleans()):
         # history: aggregate, derive a list without calling group_by again, aggregate the derived list
         plan["then"] = draw(st.sampled_from(["filter", "head", "sort", "tail", "reverse"]))
@@ -121,6 +123,10 @@ def check(plan, ctx):
     L = di.ListOfDicts([dict(x) for x in plan["left"]])
     if op == "aggregate":
         return _check_aggregate(plan, L, ctx)
+    if plan.get("alias"):
+        L = L + L.head(plan["alias"])                       # aliased items: the very same dicts at two positions
+        plan = dict(plan, left=plan["left"] + plan["left"][:plan["alias"]])
+        ctx.cls("aliased_left_items")
     R = di.ListOfDicts([dict(x) for x in plan["right"]])
     by2 = [b for _, b in plan["by"]]
     match = _first_match(plan)
@@ -187,8 +193,14 @@ def _check_full(plan, out):
             lost = [k for k in L[li] if k not in item and not (k in alias and ri is not None and alias[k] in item)]
             if lost:
                 raise Violation("full_join: left entries lost", lost=lost, item=item, left=L[li])
-    if seen_l != set(range(len(L))):
-        raise Violation("full_join: left items lost", missing=sorted(set(range(len(L))) - seen_l))
+    want_l = [x["_lid"] for x in L]
+    got_l = [dict(x)["_lid"] for x in out if dict(x).get("_lid") is not None]
+    # left items keep their original order; a left item may be repeated (adjacent) once per extra matching right item
+    collapse = lambda seq: [x for i, x in enumerate(seq) if i == 0 or x != seq[i - 1]]
+    if collapse(got_l) != collapse(want_l):
+        raise Violation("full_join: left items are not in their original order", got=got_l, want=want_l)
+    if seen_l != set(x["_lid"] for x in L):
+        raise Violation("full_join: left items lost", missing=sorted(set(x["_lid"] for x in L) - seen_l))
     if seen_r != set(range(len(R))):
         raise Violation("full_join: right items lost", missing=sorted(set(range(len(R))) - seen_r))
 
